@@ -22,7 +22,10 @@ RULE = ('split_path: every path of 0..5 (quick) / 0..7 (thorough) segments over 
         'FF, FS-US, NEL, LS, PS, NBSP, ideographic space, BOM, NUL, ...) at each structural position of a path (before the '
         'leading slash, start/end/whole of a segment, end of path, before/after the trailing slash) x all argument '
         'combinations, and at the edges of items / around written items; long inputs (segments, segment counts and items of '
-        '1000..70000 characters, bare and quoted, at every list position).')
+        '1000..70000 characters, bare and quoted, at every list position). Call sequences (kind seq): call, change the returned '
+        'list in place (each of 18 list operations), call again with the same / an equal distinct argument object, for '
+        'fixed and random argument tuples (paths shared across different minsegs/maxsegs/flag); every call must give the '
+        'model answer and a list object no earlier call returned; failures are confirmed in a fresh interpreter.')
 TRUSTED_BASE = [
     'Lean 4 kernel; axioms audited per theorem (subset of propext, Classical.choice, Quot.sound)',
     'hand-written model OsloModel/Split.lean (split_path transcription; Python str.split / join / expandtabs; hand parser '
@@ -460,6 +463,7 @@ def correspondence(ctx):
                 batch = []
     if batch:
         run_batch(ctx, batch, out)
+    run_seq_correspondence(ctx, out, 4000 if ctx.quick else 40000)
     ctx.exhaustive = True
     return out
 
@@ -563,7 +567,334 @@ def oracle(case):
         return oracle_path(case)
     if case['kind'] == 'commas':
         return oracle_commas(case)
+    if case['kind'] == 'seq':
+        return oracle_seq(case)
     return None      # str.split / expandtabs are CPython, not the property
+
+
+# ---------------------------------------------------------------------------
+# call sequences: both functions are pure - every call answers from its arguments alone, and hands the caller a
+# list of its own.  A sequence calls with one of a few argument tuples (the same object or an equal, distinct one),
+# changes lists returned earlier in place, and calls again.
+#   case = {'kind': 'seq', 'fn': 'commas' | 'path', 'values': [args, ...], 'steps': [step, ...], 'expected': [...]}
+#   args = [value] | [path, minsegs, maxsegs, rest_with_last]
+#   step = ['call', vi, distinct] | ['mut', vi, op]    ('mut': the list most recently returned for values[vi])
+#   expected (search only) = per value what the property says: 'ok:<hex>,...' | 'ValueError'
+
+MUT_OPS = ['sort', 'reverse', 'pop', 'pop0', 'append', 'extend', 'insert0', 'insert_mid', 'remove0', 'clear', 'del0',
+           'del_slice', 'slice_assign', 'iadd', 'imul', 'setitem0', 'setitem_last', 'set_none']
+
+
+def apply_mut(lst, op):
+    try:
+        if op == 'sort':
+            lst.sort(key=lambda x: (x is None, x or ''), reverse=True)
+        elif op == 'reverse':
+            lst.reverse()
+        elif op == 'pop':
+            lst.pop()
+        elif op == 'pop0':
+            lst.pop(0)
+        elif op == 'append':
+            lst.append('extra')
+        elif op == 'extend':
+            lst.extend(['e1', 'e2'])
+        elif op == 'insert0':
+            lst.insert(0, 'first')
+        elif op == 'insert_mid':
+            lst.insert(len(lst) // 2, 'mid')
+        elif op == 'remove0':
+            lst.remove(lst[0])
+        elif op == 'clear':
+            lst.clear()
+        elif op == 'del0':
+            del lst[0]
+        elif op == 'del_slice':
+            del lst[1:]
+        elif op == 'slice_assign':
+            lst[:] = ['replaced']
+        elif op == 'iadd':
+            lst += ['added']
+        elif op == 'imul':
+            lst *= 2
+        elif op == 'setitem0':
+            lst[0] = 'changed'
+        elif op == 'setitem_last':
+            lst[-1] = 'changed'
+        elif op == 'set_none':
+            lst[0] = None
+        else:
+            raise KeyError(op)
+    except (IndexError, ValueError):
+        pass          # e.g. pop on a list already emptied: nothing to change
+
+
+def distinct_copy(x):
+    """an equal string that is a different object (where CPython allows one)"""
+    return (x + '\x00')[:-1] if isinstance(x, str) else x
+
+
+def exec_seq(case):
+    """Run the sequence on the implementation in this interpreter.  Returns one entry per 'call' step:
+    [encoded result, index of an earlier call that returned the very same object or None]."""
+    from oslo_utils import strutils
+    fn = strutils.split_by_commas if case['fn'] == 'commas' else strutils.split_path
+    latest, objs, trace = {}, [], []
+    for st in case['steps']:
+        if st[0] == 'call':
+            args = list(case['values'][st[1]])
+            if st[2]:
+                args[0] = distinct_copy(args[0])
+            try:
+                r = fn(*args)
+            except ValueError:
+                r, enc = None, 'ValueError'
+            except Exception as e:
+                r, enc = None, type(e).__name__
+            else:
+                if not isinstance(r, list):
+                    enc = 'not-a-list:%s' % type(r).__name__
+                    r = None
+                elif case['fn'] == 'commas':
+                    enc = ('ok:' + ','.join(hexs(x) for x in r)) if all(isinstance(x, str) for x in r) \
+                        else 'non-str-items:%r' % (r,)
+                else:
+                    enc = enc_segs(r) if all(x is None or isinstance(x, str) for x in r) else 'bad-items:%r' % (r,)
+            alias = None
+            if r is not None:
+                for j, o in enumerate(objs):
+                    if o is r:
+                        alias = j
+                        break
+            objs.append(r)
+            latest[st[1]] = r
+            trace.append([enc, alias])
+        else:
+            tgt = latest.get(st[1])
+            if tgt is not None:
+                apply_mut(tgt, st[2])
+    return trace
+
+
+def exec_seq_fresh(case, timeout=60):
+    """The same in a fresh interpreter (no earlier calls): confirms that a failure is caused by this sequence alone."""
+    import json
+    import os
+    import subprocess
+    import sys
+    code = ('import sys, json; sys.path.insert(0, %r); import common; from props import C19; '
+            'print("TRACE" + json.dumps(C19.exec_seq(json.loads(sys.stdin.read()))))' % os.path.dirname(os.path.dirname(
+                os.path.abspath(__file__))))
+    env = dict(os.environ, PYTHONDONTWRITEBYTECODE='1', VERIF_REPO=common.REPO)
+    p = subprocess.run([sys.executable, '-c', code], input=json.dumps(case).encode(), stdout=subprocess.PIPE,
+                       stderr=subprocess.PIPE, timeout=timeout, env=env)
+    for line in p.stdout.decode().splitlines():
+        if line.startswith('TRACE'):
+            return json.loads(line[5:])
+    raise RuntimeError('fresh interpreter failed: %s' % p.stderr.decode('utf-8', 'replace')[-400:])
+
+
+def oracle_fresh(case, timeout=120):
+    """oracle(case) evaluated in a fresh interpreter: the verdict on this input alone, with no earlier calls"""
+    import json
+    import os
+    import subprocess
+    import sys
+    code = ('import sys, json; sys.path.insert(0, %r); import common; from props import C19; '
+            'print("WHY" + json.dumps(C19.oracle(json.loads(sys.stdin.read()))))' % os.path.dirname(os.path.dirname(
+                os.path.abspath(__file__))))
+    env = dict(os.environ, PYTHONDONTWRITEBYTECODE='1', VERIF_REPO=common.REPO)
+    p = subprocess.run([sys.executable, '-c', code], input=json.dumps(case).encode(), stdout=subprocess.PIPE,
+                       stderr=subprocess.PIPE, timeout=timeout, env=env)
+    for line in p.stdout.decode().splitlines():
+        if line.startswith('WHY'):
+            return json.loads(line[3:])
+    raise RuntimeError('fresh interpreter failed: %s' % p.stderr.decode('utf-8', 'replace')[-400:])
+
+
+def seq_call_line(case, vi):
+    a = case['values'][vi]
+    if case['fn'] == 'commas':
+        return req('commas', hexs(a[0]))
+    return req('path', hexs(a[0]), a[1], 'N' if a[2] is None else a[2], 1 if a[3] else 0)
+
+
+def seq_text(case, upto=None):
+    name = 'split_by_commas' if case['fn'] == 'commas' else 'split_path'
+    out, k = [], 0
+    for st in case['steps']:
+        if st[0] == 'call':
+            out.append('#%d %s(%s)%s' % (k, name, ', '.join(short(x, 60) for x in case['values'][st[1]]),
+                                         ' [equal, distinct object]' if st[2] else ''))
+            if upto is not None and k == upto:
+                break
+            k += 1
+        else:
+            out.append('%s on the list returned for value %d' % (st[2], st[1]))
+    return '; '.join(out)
+
+
+def oracle_seq(case, trace=None):
+    """Every call returns what the property says for its arguments, whatever happened before, and a list object that no
+    earlier call returned."""
+    if trace is None:
+        trace = exec_seq(case)
+    k = 0
+    for st in case['steps']:
+        if st[0] != 'call':
+            continue
+        enc, alias = trace[k]
+        want = case['expected'][st[1]]
+        if enc != want:
+            return 'call #%d returned %s, the property says %s, in: %s' % (k, show(enc), show(want), seq_text(case, k))
+        if alias is not None:
+            return 'call #%d returned the very list object that call #%d returned (callers share one list), in: %s' % (
+                k, alias, seq_text(case, k))
+        k += 1
+    return None
+
+
+SEQ_COUNTER = [0]
+
+
+def unique_token():
+    SEQ_COUNTER[0] += 1
+    return 'u%dq' % SEQ_COUNTER[0]
+
+
+def seq_values_commas(rng, n):
+    """n argument tuples with their expected answers; mostly well-formed joined lists, some malformed, some sharing a
+    prefix; each carries a token unique to this run so that no earlier sequence has used the same value."""
+    vals, exp = [], []
+    tok = unique_token()
+    for i in range(n):
+        if rng.random() < 0.2:
+            v, _ = malformed_by_construction(rng)
+            vals.append([tok + ',' + v])
+            exp.append('ValueError')
+            continue
+        items = [it for it in gen_items(rng) if not any(c in it for c in '\t\n\r')] or ['x']
+        items.insert(rng.randrange(len(items) + 1), tok if i == 0 else tok + str(i))
+        if rng.random() < 0.3:
+            items = sorted(items, reverse=True)      # so that sort() is a visible change
+        vals.append([','.join(py_quote_if_needed(x) for x in items)])
+        exp.append('ok:' + ','.join(hexs(x) for x in items))
+    return vals, exp
+
+
+def seq_values_path(rng, n):
+    """argument tuples that share the path but differ in minsegs / maxsegs / rest_with_last, and others"""
+    vals, exp = [], []
+    tok = unique_token()
+    segs = [tok] + [rng.choice(SEG_ALTS[rng.choice(sorted(SEG_ALTS))]) for _ in range(rng.randrange(0, 4))]
+    rng.shuffle(segs)
+    path = '/' + '/'.join(segs) + rng.choice(['', '', '/'])
+    for i in range(n):
+        if i and rng.random() < 0.3:
+            path = path + rng.choice(['/z', 'y', '/'])
+        mn = rng.randrange(1, 4)
+        a = [path, mn, rng.choice(maxsegs_choices(mn)), rng.random() < 0.5]
+        if a in vals:
+            continue
+        vals.append(a)
+        exp.append(spec_split_path(*a))
+    return vals, exp
+
+
+def gen_seq_steps(rng, nvals, ncalls):
+    steps = [['call', 0, False]]
+    for _ in range(ncalls - 1):
+        for _ in range(rng.choice([0, 1, 1, 2])):
+            steps.append(['mut', rng.randrange(nvals), rng.choice(MUT_OPS)])
+        steps.append(['call', rng.randrange(nvals), rng.random() < 0.4])
+    return steps
+
+
+def gen_seq_cases(ctx, nrandom):
+    """(1) every mutating operation between two calls with the same arguments (same object / equal distinct object),
+    for a few fixed argument tuples of both functions; (2) random longer sequences over up to three argument tuples."""
+    rng = ctx.rng
+    fixed_c = [['name,id,status'], ['"a,b",ac'], ['zz,"say \\"hi\\"","two words",plain'], ['x'], ['""'], ['b,a,']]
+    exp_c = ['ok:' + ','.join(hexs(x) for x in it) for it in
+             (['name', 'id', 'status'], ['a,b', 'ac'], ['zz', 'say "hi"', 'two words', 'plain'], ['x'], [''])] + ['ValueError']
+    fixed_p = [['/v1/acct/cont/obj', 1, 4, False], ['/v1/acct', 1, 3, False], ['/a/c/o/r', 1, 3, True], ['/b/a/', 2, None, False],
+               ['/a//c', 2, 3, False], ['a/c', 1, 2, False]]
+    exp_p = [spec_split_path(*a) for a in fixed_p]
+    for fn, vals, exp in (('commas', fixed_c, exp_c), ('path', fixed_p, exp_p)):
+        for vi in range(len(vals)):
+            for op in MUT_OPS:
+                for distinct in (False, True):
+                    yield {'kind': 'seq', 'fn': fn, 'values': [vals[vi]], 'expected': [exp[vi]],
+                           'steps': [['call', 0, False], ['mut', 0, op], ['call', 0, distinct]]}, 'seq/%s/each-op' % fn
+        # same path, different other arguments, interleaved
+        yield {'kind': 'seq', 'fn': fn, 'values': vals, 'expected': exp,
+               'steps': [['call', i, False] for i in range(len(vals))] + [['mut', i, 'clear'] for i in range(len(vals))] +
+                        [['call', i, True] for i in range(len(vals))]}, 'seq/%s/interleaved' % fn
+    for i in range(nrandom):
+        fn = 'commas' if i % 4 == 0 else 'path'
+        n = rng.randrange(1, 4)
+        vals, exp = (seq_values_commas if fn == 'commas' else seq_values_path)(rng, n)
+        yield {'kind': 'seq', 'fn': fn, 'values': vals, 'expected': exp,
+               'steps': gen_seq_steps(rng, len(vals), rng.randrange(2, 6))}, 'seq/%s/random' % fn
+
+
+def run_seq_correspondence(ctx, out, nrandom):
+    """model: a pure function - each call answered on its own by the driver, never the same object twice"""
+    cases = list(gen_seq_cases(ctx, nrandom))
+    lines, spans = [], []
+    for case, _ in cases:
+        idx = [st[1] for st in case['steps'] if st[0] == 'call']
+        spans.append(len(idx))
+        lines += [seq_call_line(case, vi) for vi in idx]
+    replies = ctx.driver.ask_many(lines)
+    pos = 0
+    for (case, tag), n in zip(cases, spans):
+        model = [[r, None] for r in replies[pos:pos + n]]
+        pos += n
+        ctx.evaluations += 1
+        ctx.count('corr/' + tag)
+        impl = exec_seq(case)
+        if any(st[0] == 'mut' for st in case['steps']) and any(e.startswith('ok:') for e, _ in impl):
+            ctx.nontrivial(('seq', case['fn'], repr(case['values']), repr(case['steps'])))
+        if tag.endswith('interleaved'):
+            ctx.sample({'case': case, 'implementation': [show(e) for e, _ in impl]}, 16)
+        if impl != model:
+            if len(out) < 200:
+                out.append(Disagreement(case, impl, model))
+            else:
+                ctx.count('disagreements-not-listed')
+
+
+def shrink_seq(case, deadline):
+    """Fewest steps / values that still fail in a fresh interpreter (each trial starts one: bounded)."""
+    def klass(why):
+        return None if why is None else ('shared' if 'very list object' in why else 'answer')
+    try:
+        want = klass(oracle_seq(case, exec_seq_fresh(case)))
+    except Exception:
+        return case
+
+    def fails(c):          # the same kind of failure (a wrong answer stays a wrong answer)
+        if time.time() > deadline:
+            return False
+        try:
+            return klass(oracle_seq(c, exec_seq_fresh(c))) == want
+        except Exception:
+            return False
+
+    def still(steps):
+        return steps[0][0] == 'call' and fails(dict(case, steps=list(steps)))
+    steps = common.shrink_list(case['steps'], still, max_steps=40)
+    case = dict(case, steps=steps)
+    used = sorted({st[1] for st in steps})
+    if len(used) < len(case['values']):
+        remap = {v: i for i, v in enumerate(used)}
+        cand = dict(case, values=[case['values'][v] for v in used], expected=[case['expected'][v] for v in used],
+                    steps=[[st[0], remap[st[1]], st[2]] for st in steps])
+        if fails(cand):
+            case = cand
+    return case
+
 
 
 def shrink(case, deadline=None):
@@ -607,6 +938,7 @@ def search(ctx, seeds, full=False):
     fails, kinds = [], set()
 
     shrink_budget = [60.0]       # seconds of wall clock spent on shrinking, over the whole search
+    history = [0]                # single-call failures that did not reproduce in a fresh interpreter
 
     def consider(case):
         ctx.evaluations += 1
@@ -619,6 +951,21 @@ def search(ctx, seeds, full=False):
             small = shrink(case, deadline=t0 + min(20.0, shrink_budget[0]))
             shrink_budget[0] -= time.time() - t0
         why = oracle(small) or why
+        # a single call must fail on its own: confirm in a fresh interpreter (an answer that depends on earlier calls
+        # is for the sequence search to pin down, with the calls that cause it)
+        if history[0] >= 6:
+            ctx.count('search/single-call-failure-skipped-history-dependent')
+            return
+        try:
+            fresh_why = oracle_fresh(small)
+        except Exception as e:
+            ctx.notes.append('fresh interpreter run failed: %s' % str(e)[:200])
+            fresh_why = why
+        if not fresh_why:
+            history[0] += 1
+            ctx.count('search/single-call-failure-not-reproduced-fresh')
+            return
+        why = fresh_why
         kind = small['kind'] + '/' + (why.split(' returned ')[-1].split(',')[0][:30] if small['kind'] == 'path' else
                                       small.get('why', 'round-trip' if 'items' in small else 'grammar'))
         if kind in kinds and len(fails) >= 3:
@@ -626,11 +973,41 @@ def search(ctx, seeds, full=False):
         kinds.add(kind)
         fails.append(Failure(small, {'kind': kind, 'what': why}))
 
+    fresh_runs = [0]
+
+    def consider_seq(case):
+        """in-process first; a failure counts only when the same sequence fails in a fresh interpreter"""
+        ctx.evaluations += 1
+        if not oracle_seq(case):
+            return
+        if fresh_runs[0] >= 12 or sum(1 for f in fails if f.case.get('kind') == 'seq') >= 2:
+            return
+        fresh_runs[0] += 1
+        try:
+            why = oracle_seq(case, exec_seq_fresh(case))
+        except Exception as e:
+            ctx.notes.append('fresh interpreter run failed: %s' % str(e)[:200])
+            return
+        if not why:
+            ctx.count('search/seq-failure-not-reproduced-fresh')
+            return
+        small = shrink_seq(case, time.time() + 25.0)
+        why = oracle_seq(small, exec_seq_fresh(small)) or why
+        kind = 'seq/%s/%s' % (small['fn'], 'shared-list' if 'very list object' in why else 'answer-depends-on-history')
+        fails.append(Failure(small, {'kind': kind, 'what': why, 'confirmed': 'fresh interpreter'}))
+
     for s in seeds[:300]:
+        if s.get('kind') == 'seq':
+            consider_seq(s)
         if s.get('kind') in ('path', 'commas'):
             consider(s)
-            if len(fails) >= 5:
-                return fails
+        if len(fails) >= 5:
+            return fails
+    # call sequences: call, change the returned list, call again (both functions, every list operation)
+    for c, _ in gen_seq_cases(ctx, (3000 if full else 1500) if ctx.quick else (30000 if full else 15000)):
+        consider_seq(c)
+        if len(fails) >= 5:
+            return fails
     # blanks / control characters at every structural position, and long inputs: always in full
     families = [c for c, _ in gen_path_edge_cases(ctx.quick)]
     families += [c for c, _ in gen_path_long_cases(rng)]
@@ -695,6 +1072,19 @@ def replay(ctx, payload):
         print('nothing to replay: this file names the obligation that no longer checks:')
         print(payload.get('no_longer_checks'))
         return 0
+    if case.get('kind') == 'seq':
+        print('sequence      :', seq_text(case))
+        tr = exec_seq_fresh(case)
+        print('implementation (fresh interpreter), per call [result, same object as call]:')
+        for k, (e, a) in enumerate(tr):
+            print('   #%d %s%s' % (k, show(e), '' if a is None else '   <- the list object of call #%d' % a))
+        idx = [st[1] for st in case['steps'] if st[0] == 'call']
+        print('model (pure function, a new list per call):')
+        for k, r in enumerate(ctx.driver.ask_many([seq_call_line(case, vi) for vi in idx])):
+            print('   #%d %s' % (k, show(r)))
+        why = oracle_seq(case, tr)
+        print('property oracle on the implementation:', why)
+        return 1 if why else 0
     print('case          :', case)
     print('implementation:', show(impl_of(case)))
     print('model         :', show(ctx.driver.ask(line_of(case))))
